@@ -36,3 +36,11 @@ func (s *LastGERSync) VerifReorg(ctx context.Context, firstReorgedBlock uint64) 
 func (s *LastGERSync) VerifDB() *sql.DB {
 	return s.processor.database
 }
+
+// VerifProcessor is the unexported processor type, usable as the processor of a sync.EVMDriver
+type VerifProcessor = *processor
+
+// VerifProcessor returns the real processor
+func (s *LastGERSync) VerifProcessor() VerifProcessor {
+	return s.processor
+}
